@@ -53,6 +53,7 @@ ALLOWED = {
     ('ast_compat', '<module>', 'globals'): (3, ''),
     ('ast_compare', 'compare_ast', 'getattr'): (5, None),      # field names come from the _fields of ast classes
     ('transforms/suite_transformer', 'SuiteTransformer.generic_visit', 'delattr'): (1, 'node, field'),
+    ('rename/util', 'has_private_names', 'getattr'): (1, 'node, field, None'),     # field ranges over a literal list of four AST field names (checked below)
 }
 
 
@@ -135,6 +136,15 @@ def task_inventory():
                 vals.append(pyast.unparse(a.value))
         ok = all(v == "'visit_' + node.__class__.__name__" or (v.startswith("'visit_") and v.endswith("'")) for v in vals) and vals
         obs.append(_ob('C12/inventory/%s/dispatch-name-is-visit_-plus-class-name' % spec.split(':')[1], bool(ok), repr(vals)))
+    # has_private_names: the attribute name handed to getattr comes from a literal list of identifiers
+    try:
+        fi, node = source.find_def('python_minifier.rename.util:has_private_names')
+        loops = [n for n in pyast.walk(node) if isinstance(n, pyast.For) and isinstance(n.target, pyast.Name) and n.target.id == 'field']
+        ok = len(loops) == 1 and isinstance(loops[0].iter, pyast.List) and all(isinstance(e, pyast.Constant) and isinstance(e.value, str) and e.value.isidentifier()
+                                                                                for e in loops[0].iter.elts)
+        obs.append(_ob('C12/inventory/has_private_names/attribute-names-come-from-a-literal-list', bool(ok), pyast.unparse(loops[0].iter) if loops else 'no loop over field'))
+    except source.MissingFunction:
+        pass
     # MiniBytes is dead code: never referenced
     refs = 0
     for path in source.all_package_files():
